@@ -103,6 +103,7 @@ func C15(ctx *core.Ctx) {
 	lockBalance(ctx, r, "C15.R1", "fAdapterTransport")
 	noDoubleAcquire(ctx, r, "C15.R1", "fAdapterTransport")
 
+	c15ReopenableClose(ctx, r)
 	// ---- reader loop discovery ------------------------------------------------------
 	open := r.Fn("C15.R2", "(*fAdapterTransport).Open")
 	closeFn := r.Fn("C15.R4", "(*fAdapterTransport).close")
@@ -968,4 +969,69 @@ func perCallCounter(v ssa.Value) bool {
 		}
 	}
 	return zero && back && len(phi.Edges) == 2
+}
+
+// c15ReopenableClose — C15.R7. A transport object can be opened again after it
+// was closed: its Open arms a fresh close channel. Whatever armed channel Open
+// stores in a field, every Close of the same type publishes on it: on every
+// path through Close the channel is closed exactly once (directly or in a
+// helper method) — not inside a sync.Once, a flag or any other state that
+// Open does not re-arm, which would make only the first close of the object's
+// life report a cause.
+func c15ReopenableClose(ctx *core.Ctx, r *RT) {
+	ctx.Rule("C15.R7", "every close of a re-openable transport publishes: Close closes the channel that Open armed exactly once on every path (no once-only guard that Open does not re-arm)", 1)
+	n := 0
+	for _, open := range r.Fns {
+		if open.Name() != "Open" || open.Signature.Recv() == nil {
+			continue
+		}
+		// fields of the receiver that Open arms with a fresh error channel
+		var armed []string
+		ssax.Instrs(open, func(in ssa.Instruction) {
+			st, ok := in.(*ssa.Store)
+			if !ok {
+				return
+			}
+			if _, isMk := ssax.Strip(st.Val).(*ssa.MakeChan); !isMk {
+				return
+			}
+			fa, isFA := st.Addr.(*ssa.FieldAddr)
+			if !isFA || len(open.Params) == 0 || ssax.Strip(fa.X) != ssa.Value(open.Params[0]) {
+				return
+			}
+			if ch, isCh := st.Val.Type().Underlying().(*types.Chan); isCh && isErrorType(ch.Elem()) {
+				armed = append(armed, fieldNameOfAddr(st.Addr))
+			}
+		})
+		if len(armed) == 0 {
+			continue
+		}
+		var closeFn *ssa.Function
+		for _, g := range r.Fns {
+			if g.Name() == "Close" && g.Signature.Recv() != nil && sameNamed(g.Signature.Recv().Type(), open.Signature.Recv().Type()) {
+				closeFn = g
+			}
+		}
+		if closeFn == nil {
+			continue
+		}
+		// the adapter transport's Close goes through close(cause), judged by C15.R4
+		if len(ssax.CallsTo(closeFn, "(*fAdapterTransport).close")) > 0 {
+			continue
+		}
+		for _, f := range armed {
+			n++
+			field := f
+			isClose := func(in ssa.Instruction) bool {
+				c, ok := ssax.AsCall(in)
+				return ok && c.FullName() == "builtin.close" && fieldNameOfAddr(c.Common.Args[0]) == field
+			}
+			mn, mx := ssax.CountOnPathsToW(closeFn, nil, liftedWeight(closeFn, isClose, 1), func(*ssa.Return) bool { return true })
+			ctx.Check(mn == 1 && mx == 1, "C15.R7", ssax.Name(closeFn)+" › closes "+field+" exactly once on every path", fnPos(r, closeFn), "close("+field+") on every path through Close",
+				sprintf("close(%s) happens %d..%d times on a path through Close although Open re-arms the channel on every open: a guard that is not re-armed (sync.Once, a closed flag) lets only the first close of the transport's life publish its cause — whoever waits on Closed() of a reopened transport waits forever", field, mn, mx))
+		}
+	}
+	if n == 0 {
+		ctx.Discharge("C15.R7", "runtime › no re-armed close channel outside the adapter transport", "", "nothing to check")
+	}
 }
